@@ -19,6 +19,7 @@ import common
 from common import sexp, parse_sexp
 
 MODEL_FILES = ['MaltModel/Conv/CtxWf.lean', 'MaltModel/Conv/Template.lean', 'MaltModel/Conv/TemplateHyp.lean',
+               'MaltModel/Conv/SrcClass.lean', 'MaltModel/Conv/SexpTotal.lean', 'MaltModel/Proofs/C17Roundtrip.lean',
                'MaltModel/Proofs/C17Ctx.lean', 'MaltModel/Proofs/C17Fresh.lean', 'MaltModel/Proofs/C17Inst.lean',
                'MaltModel/Generated/Templates.lean', 'MaltModel/Drv/C17.lean']
 
@@ -91,7 +92,7 @@ def build_programs(run):
     # 1. every unusual form once (fixed contexts), default options and everything-on
     both = [cfgs[0], (False, ('BUILTIN_FUNCTIONS', 'EQUALITY_OPERATORS', 'LISTS'))]
     ex = list(c17_gen.exhaustive_snippets())
-    stride = 2 if quick else 1
+    stride = 3 if quick else 1
     off = rng.randrange(stride)
     for i, (cat, e, p) in enumerate(ex):
         if i % stride != off:
@@ -99,22 +100,30 @@ def build_programs(run):
         items.append((p, both if not quick else [both[(i // stride) % 2]], i % 5 == 0, i % 3 == 0))
     info['unusual_forms'] = {'space': len(ex), 'stride': stride, 'offset': off, 'exhaustive': stride == 1}
     # 2. random unusual programs under ALL 16 configurations
-    n_un = 70 if quick else 400
+    n_un = 48 if quick else 400
     for i, p in enumerate(c17_gen.unusual_programs(rng, n_un)):
         items.append((p, cfgs, True, i % 2 == 0))
     # 3. control-flow skeletons + typed random programs (the shared C01 class), rotating configurations
     skinfo = {}
-    sk = list(progen.skeleton_programs(4 if quick else 5, 3, cap=120 if quick else 700, rng=rng, info=skinfo))
+    sk = list(progen.skeleton_programs(4 if quick else 5, 3, cap=90 if quick else 700, rng=rng, info=skinfo))
     info['skeletons'] = skinfo
     for i, p in enumerate(sk):
         k = 2 if quick else 4
         cs = [cfgs[(i * 5 + j * 7) % 16] for j in range(k)]
         items.append((p, cs, i % 4 == 0, i % 4 == 0))
-    rp = list(progen.random_programs(rng, 40 if quick else 250, size=14))
+    rp = list(progen.random_programs(rng, 30 if quick else 250, size=14))
     for i, p in enumerate(rp):
         cs = [cfgs[(i * 3 + j * 5) % 16] for j in range(4 if quick else 8)]
         items.append((p, cs, i % 3 == 0, i % 3 == 0))
-    info['counts'] = {'unusual_forms': len([1 for it in items if it[0].kind == 'unusual']) - n_un, 'unusual_random': n_un,
+    # 4. site coverage outside the 16 option sets: the assert converter only runs under Feature.ASSERT_STATEMENTS
+    acfg = [(True, ('ASSERT_STATEMENTS',)), (False, ('ASSERT_STATEMENTS', 'LISTS'))]
+    asserts = ['assert a', 'assert a, "msg"', 'assert (a, b)', 'assert a < b < c, f"{a}"', 'assert tr(a), (b, c)',
+               'assert not -a, [*l]', 'assert a if b else c', 'assert l[0] == 1, l[-1:]']
+    for i, st in enumerate(asserts):
+        src = progen.PRELUDE + 'def f(a, b, c, l):\n    x = a\n    %s\n    return x\n' % st
+        p = progen.Program(src, [], ['assert_feature'], 'assertfeat')
+        items.append((p, acfg, False, True))
+    info['counts'] = {'assert_feature': len(asserts), 'unusual_forms': len([1 for it in items if it[0].kind == 'unusual']) - n_un, 'unusual_random': n_un,
                       'skeletons': len(sk), 'random': len(rp)}
     return items, info
 
@@ -153,7 +162,10 @@ class CallRec(object):
 
 def site_name(sites, call):
     """extracted site (Gen name) of a captured call, by file and line range"""
-    f, line = call.site[0], call.site[1]
+    return site_name_at(sites, call.site[0], call.site[1])
+
+
+def site_name_at(sites, f, line):
     best = None
     for nm, sf, l1, l2, _ in sites:
         if sf == f and int(l1) <= line <= int(l2):
@@ -172,6 +184,12 @@ def evaluate(run, recs, sources, label):
     # ---------------- verified checker on every real tree
     tree_recs = [r for r in recs if r.get('tree')]
     answers = run.drive(['c17.ctxok ' + r['tree'] for r in tree_recs]) if (run.driver_ok and tree_recs) else []
+    # serialisation self-test on every real tree: Lean's verified reader/printer pair gives back exactly what Python sent
+    if run.driver_ok and tree_recs:
+        echoes = run.drive(['c17.echo ' + r['tree'] for r in tree_recs])
+        bad_echo = [(r['key'], e[:200]) for r, e in zip(tree_recs, echoes) if e != r['tree']]
+        run.oblige('correspondence:serialisation echo (pyast.Ser -> SexpTotal.readS -> printS) on every real tree' + label,
+                   'correspondence', not bad_echo, str(bad_echo[:2]))
     nrej = 0
     for r, a in zip(tree_recs, answers):
         if a != 'True':
@@ -196,7 +214,6 @@ def evaluate(run, recs, sources, label):
         flags_by_line[l] = flags
         nm = site_name(sites, c)
         site_of[l] = nm
-        site_hits[nm or 'unknown:%s:%s' % (c.site[0], c.site[1])] += 1
         if not ok:
             dis.append({'site': nm, 'template': c.template, 'request': l[:3000], 'detail': detail[:3000]})
         # the template text seen at run time is the extracted one
@@ -224,6 +241,7 @@ def evaluate(run, recs, sources, label):
     args_sites = collections.Counter()
     hyp_unexplained = []
     src_class = {}
+    site_cache = {}
     for r in recs:
         stage[r['stage']] += 1
         if r.get('error'):
@@ -247,7 +265,11 @@ def evaluate(run, recs, sources, label):
                 stats['calls_not_serialisable'] += 1
                 continue
             fl = flags_by_line.get(t[0], {})
-            nm = site_of.get(t[0])
+            sk = (t[7][0], t[7][1])
+            if sk not in site_cache:
+                site_cache[sk] = site_name_at(sites, sk[0], sk[1]) or 'unknown:%s:%s' % sk
+            nm = site_cache[sk]
+            site_hits[nm] += 1
             if fl.get('tmplOk') is False or fl.get('bindingsWf') is False or fl.get('usesOk') is False:
                 case_hyp.append((nm, 'tmplOk=%s bindingsWf=%s usesOk=%s' % (fl.get('tmplOk'), fl.get('bindingsWf'), fl.get('usesOk'))))
             if fl.get('argsOk') is False or fl.get('dups') or fl.get('shared'):
@@ -273,17 +295,20 @@ def evaluate(run, recs, sources, label):
                 a2 = parse_sexp(run.drive([l2])[0])
                 erase_cache[t[0]] = (a2[4] == 'True') if a2[0] == 'ok' else (a2[4] == 'True')
             reasons.add(CLS_WALRUS if erase_cache[t[0]] else CLS_NONASSIGNABLE)
-        explained = all(w.split(':')[0] in CTX_EXPLAINED for w, _ in r['fails'])
+        fkinds = set(w.split(':')[0] for w, _ in r['fails'])
+        explained = fkinds <= set(CTX_EXPLAINED)
+        # a statement list stored in an expression field additionally makes the tree unserialisable
+        explained_append = fkinds <= set(CTX_EXPLAINED) | {'final-tree-not-serialisable'}
         cls = None
         sc = []
-        if explained and 'L' in r['cfg'][1:] and sources.get(r['prog']):
+        if explained_append and 'L' in r['cfg'][1:] and sources.get(r['prog']):
             # Feature.LISTS: root-cause classes decided by the Lean predicates on the SOURCE function (they come first: a
             # target turned into a call also trips usesOk at the next template that binds it)
             if r['prog'] not in src_class:
                 src_class[r['prog']] = source_classes(run, sources[r['prog']])
-            sc = src_class[r['prog']]
+            sc = [c for c in src_class[r['prog']] if explained or c == CLS_APPEND_EXPR]
         if sc:
-            cls = sc[0]
+            cls = CLS_APPEND_EXPR if (not explained and CLS_APPEND_EXPR in sc) else sc[0]
             reasons.update(sc)
         elif reasons and explained:
             cls = CLS_WALRUS if reasons == {CLS_WALRUS} else (CLS_NONASSIGNABLE if CLS_NONASSIGNABLE in reasons else None)
@@ -324,7 +349,10 @@ def generated_correspondence(run):
                 b = make()
             except Exception as e:
                 raise common.InfraError('binding constructor failed for %s: %r' % (key, e))
-            for fn in (templates.replace, templates.replace_as_expression):
+            fns = (templates.replace, templates.replace_as_expression)
+            if run.tier == 'quick' and len(cases) % 3:
+                fns = fns[:1]
+            for fn in fns:
                 n0 = len(log)
                 try:
                     fn(text, **b)
@@ -333,6 +361,28 @@ def generated_correspondence(run):
                 if len(log) == n0 + 1:
                     cases.append((key + ('|expr' if fn is templates.replace_as_expression else ''), text, log[-1]))
                 b = make()
+    # template call sites that no conversion reaches: the ANF transformer (not in the pipeline) and Base.create_assignment
+    ndirect = len(log)
+    with ct.capture(log):
+        import ast as _ast
+        from malt.pyct import transformer as _tr
+        from malt.pyct.common_transformers import anf as _anf
+        ctx = _tr.Context(_tr.EntityInfo(name='f', source_code=None, source_file=None, future_features=(), namespace={}), None, None)
+        for src in ('x = f(a + 1, b[i].c)\nreturn g(h(x), *y, k=-z)', 'if a < b < f(c):\n    y = [i for i in l]', 'x = (p, q.r[0])\ndel s[f(t)]',
+                    'for i in f(g(a)):\n    x += h(i) + 1', 'with cm(f(a)) as w:\n    assert g(w), "m"'):
+            try:
+                _anf.transform(_ast.parse('def f(a, b, c, l):\n' + '\n'.join('    ' + ln for ln in src.split('\n'))).body[0], ctx)
+            except Exception:
+                pass
+        base = _tr.Base(ctx)
+        for tgt, val in (('x', 'a + 1'), ('o.a', 'f(b)'), ('d[k]', '(a, b)'), ('(p, q)', 'l')):
+            try:
+                base.create_assignment(_ast.parse(tgt + ' = 0').body[0].targets[0], _ast.parse(val, mode='eval').body)
+            except Exception:
+                pass
+    for c in log[ndirect:]:
+        cases.append(('direct:%s:%d' % (c.site[0], c.site[1]), c.template, c))
+    run.cov['direct_api_template_calls'] = len(log) - ndirect
     lines, keep = [], []
     for key, text, c in cases:
         l = ct.request_line(c)
@@ -418,7 +468,7 @@ def check(run):
             cov = evaluate(run, crecs, csrc, ' [corpus]')
             run.cov['corpus'] = {'cases': len(crecs), 'stage': cov['stage']}
         # a listed finding is only usable if its witness still fails in its class
-        failing_by_key = {f['case']['key'].split('/')[0]: f for f in run.failing[nf0:]}
+        failing_by_key = {f['case']['key'].split('/')[0]: f for f in run.failing[nf0:] if isinstance(f.get('case'), dict) and 'key' in f['case']}
         for k in known:
             f = failing_by_key.get('witness:' + k['id'])
             still = f is not None and f.get('cls') == k.get('class')
@@ -443,15 +493,22 @@ def check(run):
     for p, cs, _, _ in items:
         for f in p.features:
             feats[f] += len(cs)
+    t1 = time.time()
     recs = run_jobs(items, nworkers)
+    run.cov['wall_parallel_conversions_s'] = round(time.time() - t1, 1)
+    run.cov['workers'] = nworkers
     run.cov['programs'] = info
     run.cov['conversions'] = len(recs)
     run.cov['construct_distribution'] = dict(feats.most_common(60))
     run.cov['option_sets'] = dict(collections.Counter(r['cfg'] for r in recs))
     if run.driver_ok:
+        t1 = time.time()
         cov = evaluate(run, recs, sources, '')
+        run.cov['wall_evaluate_s'] = round(time.time() - t1, 1)
         run.cov['real_conversions'] = cov
+        t1 = time.time()
         generated_correspondence(run)
+        run.cov['wall_generated_correspondence_s'] = round(time.time() - t1, 1)
     else:
         for r in recs:
             run.case(r['key'], r['stage'] in ('done', 'load'))
